@@ -1,6 +1,6 @@
 (* Props/C09.v — Column-name variables bind to the right column; header line is never data.
    ONLY statements: each closed by [exact <lemma>] with Print Assumptions beneath. *)
-From RBQL Require Import Base Parser ParserVars ParserVars_Proofs.
+From RBQL Require Import Base PyStr Parser ParserVars ParserVars_Proofs VarsIx VarsIx_Proofs.
 Local Open Scope N_scope.
 
 (* The key under which the init code stores a column is the column's name: Python's value of the literal
@@ -113,3 +113,34 @@ Example C09_binding_nonvacuous :
             eval_bracket_access 97 m (APOS :: escape_column_name APOS [113; QT; BSL; 114] ++ [APOS]) = Some 2.
 Proof. exact binding_example. Qed.
 Print Assumptions C09_binding_nonvacuous.
+
+(* ---- the source-shaped index models (task gen2; VarsIx.v): on every run of ./check C09 python_string_escape_column_name and
+   query_probably_has_dictionary_variable of rbql_engine.py (and their rbql.js counterparts) are translated into Gallina again and
+   proved equal to them (generated obligations gen_escape_column_name_eq, gen_prefilter_eq, gen_js_...). *)
+
+(* five sequential str.replace calls after the assert on the quote character = escape_column_name; None = the assert fails *)
+Theorem C09_index_model_escape_column_name : forall (name : str) (qc : ch),
+  ix_python_string_escape_column_name name [qc] = if N.eqb qc QT || N.eqb qc APOS then Some (escape_column_name qc name) else None.
+Proof. exact ix_escape_column_name_correct. Qed.
+Print Assumptions C09_index_model_escape_column_name.
+
+Theorem C09_js_index_model_escape_column_name : forall (name : str) (qc : ch),
+  jsix_js_string_escape_column_name name [qc] = if N.eqb qc APOS || N.eqb qc QT || N.eqb qc 96 then Some (escape_column_name qc name) else None.
+Proof. exact jsix_escape_column_name_correct. Qed.
+Print Assumptions C09_js_index_model_escape_column_name.
+
+(* the loop over the segments with its early `return False` = the model's forallb *)
+Theorem C09_index_model_prefilter : forall query name : str,
+  ix_query_probably_has_dictionary_variable query name = query_probably_has_dictionary_variable query name.
+Proof. exact ix_prefilter_correct. Qed.
+Print Assumptions C09_index_model_prefilter.
+
+Theorem C09_js_index_model_prefilter : forall query name : str,
+  jsix_query_probably_has_dictionary_variable query name = query_probably_has_dictionary_variable query name.
+Proof. exact jsix_prefilter_correct. Qed.
+Print Assumptions C09_js_index_model_prefilter.
+
+(* s.replace(c, r) with a one-character pattern replaces every occurrence, character by character (Base.replace = join of split) *)
+Theorem C09_replace_one_character : forall (s : str) (c : ch) (r : str), py_replace s [c] r = replace_ch c r s.
+Proof. exact py_replace_ch. Qed.
+Print Assumptions C09_replace_one_character.
